@@ -1,0 +1,65 @@
+//go:build verif
+
+// Contracts for package corazawaf, checked by /verif/govc (comment-only file; no code).
+package corazawaf
+
+// ---------------------------------------------------------------- BodyBuffer (C10, C20, C05)
+
+//@ define bufContent(b *BodyBuffer) string := ite(b.writer == nil, b.buffer.content, b.writer.content)
+//@ define BufInv(b *BodyBuffer) bool := b.buffer != nil && 0 <= b.length && b.length <= b.options.Limit &&
+//@     len(bufContent(b)) == b.length && (b.writer != nil ==> len(b.buffer.content) == 0 && in(b.writer.name, liveTmp) && b.length > b.options.MemoryLimit)
+
+//@ func (*BodyBuffer).Write props C10,C20,C07
+//@   requires BufInv(br)
+//@   modifies br.length, br.writer, br.buffer.content, os.File.content, liveTmp
+//@   ensures isnil(err) ==> BufInv(br) && n == len(data) && bufContent(br) == old(bufContent(br)) + str(data)
+//@   ensures old(br.length) + len(data) > br.options.Limit ==> !isnil(err) && n == 0 && BufInv(br) && bufContent(br) == old(bufContent(br))
+//@   ensures recorded: forall s string :: in(s, liveTmp) ==> in(s, old(liveTmp)) || (br.writer != nil && s == br.writer.name)
+//@   ensures old(br.writer) != nil ==> br.writer == old(br.writer)
+
+//@ func (*BodyBuffer).Size props C10
+//@   ensures result == br.length
+
+//@ func NewBodyBuffer props C10,C05
+//@   ensures result != nil && fresh(result) && result.buffer != nil && result.writer == nil && result.length == 0
+//@   ensures result.buffer.content == "" && len(result.readers) == 0
+//@   ensures result.options.Limit == options.Limit && result.options.MemoryLimit == options.MemoryLimit
+
+//@ define ReaderInv(b *bodyBufferReader) bool := b.br != nil ==> (BufInv(b.br) && 0 <= b.pos && b.pos <= len(bufContent(b.br)))
+
+//@ func (*bodyBufferReader).Read props C10,C05,C07
+//@   requires ReaderInv(b)
+//@   modifies b.pos, elems(p)
+//@   ensures closed: old(b.br) == nil ==> n == 0 && !isnil(err) && str(p) == old(str(p))
+//@   ensures 0 <= n && n <= len(p) && b.br == old(b.br)
+//@   ensures b.br != nil ==> b.pos == old(b.pos) + n
+//@   ensures bytes: b.br != nil ==> (forall k int :: 0 <= k && k < n ==> p[k] == bufContent(b.br)[old(b.pos) + k])
+//@   ensures mem: b.br != nil && b.br.writer == nil ==> n == ite(len(p) <= len(bufContent(b.br)) - old(b.pos), len(p), len(bufContent(b.br)) - old(b.pos))
+//@   ensures eof: b.br != nil && isnil(err) && len(p) > 0 ==> n > 0
+//@   ensures ReaderInv(b)
+
+//@ func (*bodyBufferReader).Close props C05,C10
+//@   modifies b.br, b.pos
+//@   ensures b.br == nil && b.pos == 0
+
+//@ func (*BodyBuffer).Reader props C10,C05
+//@   modifies br.readers, elems(br.readers)
+//@   ensures isnil(result1) && typeof(result0) == tag("*bodyBufferReader")
+//@   ensures fresh(payload(result0, "*bodyBufferReader")) && payload(result0, "*bodyBufferReader").br == br && payload(result0, "*bodyBufferReader").pos == 0
+//@   ensures len(br.readers) == len(old(br.readers)) + 1 && br.readers[len(br.readers) - 1] == payload(result0, "*bodyBufferReader")
+//@   ensures forall j int :: 0 <= j && j < len(old(br.readers)) ==> br.readers[j] == old(br.readers[j])
+
+//@ func (*BodyBuffer).Reset props C05,C20,C10
+//@   requires br.buffer != nil
+//@   requires forall j int :: 0 <= j && j < len(br.readers) ==> br.readers[j] != nil
+//@   modifies br.length, br.readers, br.writer, br.buffer.content, bodyBufferReader.br, bodyBufferReader.pos, liveTmp, removeTried
+//@   ensures br.length == 0 && br.buffer.content == "" && br.writer == nil && len(br.readers) == 0
+//@   ensures detached: forall j int :: 0 <= j && j < len(old(br.readers)) ==> old(br.readers[j]).br == nil
+//@   ensures removed: isnil(result) && old(br.writer) != nil ==> liveTmp == remove(old(liveTmp), old(br.writer.name))
+//@   ensures tried: old(br.writer) != nil ==> in(old(br.writer.name), removeTried)
+//@   ensures nothingElse: forall s string :: in(s, liveTmp) ==> in(s, old(liveTmp))
+//@   loop 1
+//@     invariant -1 <= rangeindex && rangeindex < len(br.readers) && br.readers == old(br.readers)
+//@     invariant forall j int :: 0 <= j && j <= rangeindex ==> br.readers[j].br == nil
+//@     invariant br.length == 0 && br.buffer.content == "" && br.writer == old(br.writer) && br.buffer == old(br.buffer)
+//@     invariant liveTmp == old(liveTmp) && removeTried == old(removeTried)
